@@ -40,7 +40,7 @@ ANCHORS = ['pfhedge.nn.modules.hedger:Hedger.compute_hedge',
            'pfhedge.features.features:Variance.get',
            'pfhedge.features.features:Moneyness.get']
 DECIDING = ["hedge.prefix_invariant", "hedge.no_trade_at_maturity", "feature.prefix_invariant"]
-REQUIRED_BRANCHES = ["sibling_hedger_shares_features", "branch.stepwise", "branch.vectorised", "poison.nan", "poison.scale", "poison.resample", "grad.on", "grad.off"]
+REQUIRED_BRANCHES = ["variance_exactly_zero_before_the_end", "feature.step_counted_from_the_end", "sibling_hedger_shares_features", "branch.stepwise", "branch.vectorised", "poison.nan", "poison.scale", "poison.resample", "grad.on", "grad.off"]
 
 
 def snapshot(derivative):
@@ -178,12 +178,20 @@ def drv_features(ctx, k, rng):
 
     dtype = pick(rng, [None, F64])
     stock = P.make_stock(rng, dtype=dtype)
-    derivative = P.make_derivative(rng, stock, n_steps=int(pick(rng, [2, 3, 5, 9])), clauses=False)
+    if k % 8 == 5:
+        # deterministic coverage: a Heston stock far from the Feller condition (variance exactly zero on some paths before the end)
+        from pfhedge.instruments import HestonStock
+
+        stock = HestonStock(kappa=0.5, theta=0.01, sigma=1.2, rho=-0.6, dt=1 / 52, dtype=dtype)
+        stock._pfv_kind = "heston"
+    derivative = P.make_derivative(rng, stock, n_steps=int(pick(rng, [2, 3, 5, 9])) if k % 8 != 5 else 9, clauses=False)
     if derivative._pfv_kind in P.OPTIONS[:1] and rng.random() < 0.5:
         derivative.list(P.bs_pricer, cost=1e-3)
-    n = int(pick(rng, [1, 3]))
+    n = int(pick(rng, [1, 3])) if k % 8 != 5 else 6
     derivative.simulate(n_paths=n)
     T = stock.spot.shape[1]
+    if "variance" in dict(stock.named_buffers()) and bool((stock.variance[:, :-1] == 0).any()):
+        ctx.branch("variance_exactly_zero_before_the_end")
     snap = snapshot(derivative)
     mon = "feature.prefix_invariant"
     for f in all_features(rng, derivative):
@@ -195,6 +203,13 @@ def drv_features(ctx, k, rng):
         with torch.no_grad():
             base_all = ff.get(None).clone()
             base_one = [ff.get(i).clone() for i in range(T)]
+            # steps counted from the end, where the feature accepts them (-k names step T-k; -1 is not accepted by the prefix statistics)
+            base_neg = {}
+            for i in range(T - 1):
+                try:
+                    base_neg[i] = ff.get(i - T).clone()
+                except Exception:
+                    pass
         for tc in range(T):
             kind = pick(rng, ["nan", "scale_up", "resample"])
             if name in ("spot", "log_spot") and kind == "nan":
@@ -205,10 +220,18 @@ def drv_features(ctx, k, rng):
                     ff2 = f.of(derivative)
                     one = ff2.get(tc)
                     allp = ff2.get(None)[:, : tc + 1]
+                    neg = ff2.get(tc - T) if tc in base_neg else None
             finally:
                 restore(snap)
             ctx.seen(mon)
             ok = bit_equal(one, base_one[tc]) and bit_equal(allp, base_all[:, : tc + 1])
+            if neg is not None:
+                ctx.branch("feature.step_counted_from_the_end")
+                if ok and not bit_equal(neg, base_neg[tc]):
+                    ctx.violation(mon, "feature_anticipation", f"feature {name}: get({tc - T}) (step {tc} of {T}) changes when columns > {tc} are poisoned ({kind})",
+                                  sig=(name, kind, type(stock).__name__, "negative_step"), feature=name, cut=tc, poison=kind,
+                                  before=base_neg[tc].reshape(-1)[:6], after=neg.reshape(-1)[:6], derivative=repr(derivative)[:120])
+                    break
             if not ok:
                 ctx.violation(mon, "feature_anticipation", f"feature {name}: get({tc}) or get(None)[:, :{tc + 1}] changes when columns > {tc} are "
                               f"poisoned ({kind})", sig=(name, kind, type(stock).__name__), feature=name, cut=tc, poison=kind,
